@@ -200,12 +200,18 @@ class ThreadBook:
         ev = self.events[key] = threading.Event()
         started = self.started[key] = threading.Event()
 
+        names = {}
+
         def body():
             self.idents[key] = threading.get_ident()
+            if api == '_thread_ct':
+                # a low-level thread that touches threading: threading keeps a
+                # _DummyThread for it that stays "alive" after it has ended
+                names[key] = threading.current_thread().name
             started.set()
             ev.wait()
 
-        if api == '_thread':
+        if api in ('_thread', '_thread_ct'):
             _thread.start_new_thread(body, ())
         else:
             kw = {}
@@ -216,7 +222,9 @@ class ThreadBook:
             t.start()
         started.wait(30)
         name = ''
-        if api != '_thread':
+        if api == '_thread_ct':
+            name = names.get(key, '')
+        elif api != '_thread':
             name = self.threads[key].name
         else:
             name = 'Dummy-%s' % self.idents[key]
